@@ -2,12 +2,12 @@
 
     Go sources mirrored here
       internal/server/message/message.go :
-        HandleSearch (argument handling only: CHARSET, criteria string),
+        HandleSearch / SearchSelectedMailbox (argument handling only: CHARSET, criteria string),
         evaluateSearchCriteria, parseSearchTokens, matchesSearchCriteria,
         evaluateTokens, isSequenceSet, matchesSequenceSet, matchesUIDSet,
         unquote, requiresArgument, matchesDate, parseIMAPDate
       (the keys that read the message text are in Model/SearchText.v)
-      internal/server/uid/uid.go : handleUIDSearch   -- a SEPARATE implementation
+      internal/server/uid/uid.go : handleUIDSearch   -- delegates to message.SearchSelectedMailbox
       internal/server/connection.go : handleClient's  parts := strings.Fields(line)
 
     [option] results: [None] is a Go run-time panic.  Since fix bb43d4f (guard before the
@@ -393,8 +393,9 @@ Definition eval_tokens := eval_tokens_d 3.
 Definition matches_search_criteria (T : text_ops) (m : msg) (tokens : list str) : option bool :=
   match tokens with [] => Some true | _ => eval_tokens T m tokens end.
 
-(** evaluateSearchCriteria: the first message whose evaluation panics ends the process *)
-Fixpoint collect_seq (T : text_ops) (tokens : list str) (msgs : list msg) : option (list Z) :=
+(** evaluateSearchCriteria: the matching entries of the listing, in listing
+    order (a panicking evaluation would end the command: [None]) *)
+Fixpoint collect_seq (T : text_ops) (tokens : list str) (msgs : list msg) : option (list msg) :=
   match msgs with
   | [] => Some []
   | m :: ms =>
@@ -403,63 +404,41 @@ Fixpoint collect_seq (T : text_ops) (tokens : list str) (msgs : list msg) : opti
       | Some b =>
           match collect_seq T tokens ms with
           | None => None
-          | Some l => Some (if b then m_seq m :: l else l)
+          | Some l => Some (if b then m :: l else l)
           end
       end
   end.
 
 Definition all_str := S_ "ALL".
-Definition evaluate_search_criteria (T : text_ops) (msgs : list msg) (criteria : str) : option (list Z) :=
+Definition evaluate_search_criteria (T : text_ops) (msgs : list msg) (criteria : str) : option (list msg) :=
   let criteria := match trim_space criteria with [] => all_str | _ => criteria end in
   collect_seq T (parse_search_tokens criteria) msgs.
 
-(** ** HandleSearch for an authenticated session with a selected mailbox;
-    [parts] = strings.Fields(line) = tag :: "SEARCH" :: ... *)
+(** ** message.SearchSelectedMailbox (fix "UID SEARCH runs the SEARCH evaluator"):
+    SEARCH and UID SEARCH on the selected mailbox of an authenticated session.
+    [args] = the words after the command name; [by_uid] = report UIDs instead
+    of sequence numbers. *)
 Inductive reply := RBad | RNo | ROk (l : list Z) | RPanic.
 
-Definition handle_search (T : text_ops) (parts : list str) (msgs : list msg) : reply :=
-  if (Z.of_nat (length parts) <? 3) then RBad
+Definition search_selected (T : text_ops) (args : list str) (by_uid : bool) (msgs : list msg) : reply :=
+  if (length args <? 1)%nat then RBad
   else
-    let with_charset := (3 <? Z.of_nat (length parts)) && str_eqb (to_upper (nth 2 parts [])) (S_ "CHARSET") in
-    let charset := if with_charset then to_upper (nth 3 parts []) else S_ "US-ASCII" in
-    let start := if with_charset then 4%nat else 2%nat in
+    let with_charset := (1 <? length args)%nat && str_eqb (to_upper (nth 0 args [])) (S_ "CHARSET") in
+    let charset := if with_charset then to_upper (nth 1 args []) else S_ "US-ASCII" in
+    let start := if with_charset then 2%nat else 0%nat in
     if with_charset && negb (str_eqb charset (S_ "US-ASCII")) && negb (str_eqb charset (S_ "UTF-8")) then RNo
-    else if (length parts <=? start)%nat then RBad
+    else if (length args <=? start)%nat then RBad
     else
-      match evaluate_search_criteria T msgs (join (skipn start parts) [sp]) with
+      match evaluate_search_criteria T msgs (join (skipn start args) [sp]) with
       | None => RPanic
-      | Some l => ROk l
+      | Some l => ROk (map (if by_uid then m_uid else m_seq) l)
       end.
 
-(** ** uid.handleUIDSearch: [parts] = tag :: "UID" :: "SEARCH" :: ... *)
-Fixpoint uid_range_of (parts : list str) : option str :=
-  match parts with
-  | p :: rest =>
-      match rest with
-      | nxt :: _ => if str_eqb (to_upper p) (S_ "UID") then Some nxt else uid_range_of rest
-      | [] => None
-      end
-  | [] => None
-  end.
+(** HandleSearch: [parts] = strings.Fields(line) = tag :: "SEARCH" :: args *)
+Definition handle_search (T : text_ops) (parts : list str) (msgs : list msg) : reply :=
+  search_selected T (skipn 2 parts) false msgs.
 
-Definition handle_uid_search (parts : list str) (msgs : list msg) : reply :=
-  if (Z.of_nat (length parts) <? 4) then RBad
-  else
-    let criteria := join (skipn 3 parts) [sp] in
-    let cu := to_upper criteria in
-    if str_eqb cu all_str then ROk (map m_uid msgs)
-    else if contains cu (S_ "UID ") then
-      match uid_range_of (fields criteria) with
-      | Some r =>
-          if contains r [colon] then
-            match split_byte r colon with
-            | [a; b] =>
-                let start := atoi_val a in
-                let end_ := atoi_val b in
-                ROk (map m_uid (filter (fun m => (start <=? m_uid m) && (m_uid m <=? end_)) msgs))
-            | _ => ROk []
-            end
-          else ROk []
-      | None => ROk []
-      end
-    else ROk (map m_uid msgs).
+(** uid.handleUIDSearch: [parts] = tag :: "UID" :: "SEARCH" :: args — the same
+    evaluation, UIDs reported *)
+Definition handle_uid_search (T : text_ops) (parts : list str) (msgs : list msg) : reply :=
+  search_selected T (skipn 3 parts) true msgs.
